@@ -524,16 +524,29 @@ func TestC06(t *testing.T) {
 		}
 
 		// Reset then reuse
-		if rapid.IntRange(0, 3).Draw(rt, "reset") == 0 {
-			r.reset()
+		if rapid.IntRange(0, 2).Draw(rt, "reset") == 0 {
+			// any live copy may be the one that is reused: a clone taken while squeezing must have kept
+			// everything Reset needs (key, declared length), not only the squeezing state
+			rr := r
+			if len(pool) > 1 {
+				ri := rapid.IntRange(0, len(pool)-1).Draw(rt, "resetWho")
+				rr = pool[ri]
+				if ri > 0 {
+					c.Class("reset-reuse:of-a-clone")
+					if keyLen > 0 {
+						c.Class("reset-reuse:of-a-keyed-clone")
+					}
+				}
+			}
+			rr.reset()
 			shape.WriteByte('R')
 			m2 := gen.RandBytes(rt, "msg2", rapid.IntRange(0, 200).Draw(rt, "msg2Len"))
-			if err := r.write(m2); err != nil {
+			if err := rr.write(m2); err != nil {
 				fail("after-reset", err)
 			}
 			for j, k := 0, rapid.IntRange(1, 5).Draw(rt, "resetReads"); j < k; j++ {
-				sz, _ := c06ReadSize(rt, r, false)
-				if err := r.read(sz); err != nil {
+				sz, _ := c06ReadSize(rt, rr, false)
+				if err := rr.read(sz); err != nil {
 					fail("after-reset", err)
 				}
 			}
